@@ -1,17 +1,18 @@
 """C04 — ticks are serialised, carry one time each, and time never runs backwards."""
 from . import simprop
 
-MODULES = ["TickitModel.Props.C04", "TickitModel.Props.C01", "TickitModel.Props.C01Live", "TickitModel.Props.C04Mono", "TickitModel.Props.C05", "TickitModel.Props.FlatInt"]
+MODULES = ["TickitModel.Props.C04", "TickitModel.Props.C01", "TickitModel.Props.C01Live", "TickitModel.Props.C04Mono", "TickitModel.Props.C05", "TickitModel.Props.FlatInt", 'TickitModel.Props.AnyTransfer', 'TickitModel.Props.AnyTransferStim']
 THEOREMS = ["one_time_per_tick", "tick_complete", "wake_not_before", "time_monotone", "tick_time_provenance",
             "within_extent", "finished_iff", "resolved_iff_answered", "tickRun_exists",
             "master_wake_not_before", "master_time_monotone", "master_startTick_monotone", "master_times_sorted", "master_past_callback_decreases",
-            "system_callAt_not_past", "nested_tick_callAt_not_past", "answer_callAt_not_past", "sim_wake_not_before", "sim_time_monotone", "tickLevel_once", "time_monotoneI", "wake_not_beforeI", "time_not_monotone_untimely"]
+            "system_callAt_not_past", "nested_tick_callAt_not_past", "answer_callAt_not_past", "sim_wake_not_before", "sim_time_monotone", "tickLevel_once", "time_monotoneI", "wake_not_beforeI", "time_not_monotone_untimely",
+            'any_order_wake_not_before', 'any_order_time_monotone', 'any_order_system_callAt_not_past', 'any_order_nested_tick_callAt_not_past', 'any_order_answer_callAt_not_past', 'any_order_tick_one_time', 'any_order_run_has_fifo_stims', 'any_order_wake_not_before_stims', 'any_order_time_monotone_stims']
 ANCHORS = ["src/tickit/core/management/ticker.py", "src/tickit/core/management/schedulers/master.py",
            "src/tickit/core/management/schedulers/nested.py", "src/tickit/core/components/system_component.py"]
 TECHNIQUE = "Lean 4 theorems (a tick finishes only when every member of its extent answered, all dispatches carry the tick time, tick times non-decreasing when no callback is in the past) + trace validation of real runs incl. nested ticks inside outer ticks"
 LEVEL_TEXT = ("Theorems: in every run of a tick, `finished` is raised exactly when every member of the extent has answered, each was dispatched once, all "
               "with the tick's time (ticker model, all answer orders); over flat multi-tick histories every pending wakeup is at or after the last tick "
-              "time, so successive tick times never decrease provided no device asks for a callback in the past. Interrupts at ANY point (Props/C04Mono): in the master bookkeeping transition system, where interrupts may arrive before, during and after ticks and a tick can only start when none is running, for every history whose interrupt stamps and callback requests are not in the past the ticker time never decreases (master_time_monotone, master_times_sorted; a checked history with a past callback shows the hypothesis is needed). Through nesting (whole-simulation model, any depth, callbacks and interrupt stimuli): every observation of a tick at any depth carries the tick's time (tickLevel_once: the inner tick lies inside the outer dispatch, at the same time); a system component never answers with a callback before the tick time, because every inner wakeup that is due is served (system_callAt_not_past, nested_tick_callAt_not_past); hence the tick times of every run of the whole-simulation model are non-decreasing provided no device asks to be called back in the past in that run (sim_time_monotone). Validated rather than proved: that the real asyncio schedule serialises ticks the way the transition system does (monitor on Ticker entry/exit over all generated runs, races between sleep expiry and interrupts with per-iteration real-time cost, callbacks overdue when an interrupt arrives).")
+              "time, so successive tick times never decrease provided no device asks for a callback in the past. Interrupts at ANY point (Props/C04Mono): in the master bookkeeping transition system, where interrupts may arrive before, during and after ticks and a tick can only start when none is running, for every history whose interrupt stamps and callback requests are not in the past the ticker time never decreases (master_time_monotone, master_times_sorted; a checked history with a past callback shows the hypothesis is needed). Through nesting (whole-simulation model, any depth, callbacks and interrupt stimuli): every observation of a tick at any depth carries the tick's time (tickLevel_once: the inner tick lies inside the outer dispatch, at the same time); a system component never answers with a callback before the tick time, because every inner wakeup that is due is served (system_callAt_not_past, nested_tick_callAt_not_past); hence the tick times of every run of the whole-simulation model are non-decreasing provided no device asks to be called back in the past in that run (sim_time_monotone). Validated rather than proved: that the real asyncio schedule serialises ticks the way the transition system does (monitor on Ticker entry/exit over all generated runs, races between sleep expiry and interrupts with per-iteration real-time cost, callbacks overdue when an interrupt arrives). FOR ANY ANSWER ORDER AT EVERY NESTING LEVEL (every scheduler level answers its pending dispatches in ANY order, a system component's answer is any such execution of its inner level; Core/SimAny; none of these corollaries assumes that the first-in first-out model succeeds - that follows from the existence of the execution) (Props/AnyTransfer, AnyTransferStim): tick times of every any-order run never decrease, also with external stimuli (any_order_time_monotone, any_order_time_monotone_stims), no wakeup lies before the tick that recorded it, a system never answers with a callback in the past, and every observation of a tick carries that tick's one time.")
 LEVEL_NOTE = "Trusts: Lean kernel; hand-written models; nesting and interrupt timing carried by trace validation."
 ASSUMPTIONS = ["no device asks to be called back in the past (for monotonicity)"]
 MON = ("ticker", "tick_times", "device_order")
